@@ -189,7 +189,8 @@ CHECKS = {
                      "(2) opening accepts only when the stored next-header CRC is the CRC of exactly the header bytes; (3) with one "
                      "folder's decoded stream damaged from any offset, every selection, extraction to a factory or to paths "
                      "(regular and symlink members) and testzip: a normal return implies that no delivered member contains an "
-                     "altered byte / testzip()==None implies no member is damaged; (4) test()==True implies every packed stream "
+                     "altered byte / testzip()==None implies no member is damaged - also for an archive opened by path with mp=True, "
+                     "where the workers are processes (stand-in: sequential, working on copies of their arguments); (4) test()==True implies every packed stream "
                      "with a defined CRC is unaltered, for every defined-vector and block size.",
                 note=RD_NOTE + "; what real decoders do with damaged input (raise or garbage) is covered by the stub allowing both; "
                      "CRC collisions and members stored without CRC are outside"),
